@@ -54,13 +54,18 @@ type Kernel struct {
 	Panics []string
 	// Parks counts park operations (reach measure).
 	Parks int
+	root  uint64 // goroutine id of the scheduler
 }
 
 // Current is the active kernel, nil when simulation is off.
 var Current *Kernel
 
+// NewKernel must be called by the scheduler's own goroutine: that goroutine
+// never parks (it is the one that releases the others), so instrumented code
+// it happens to run - registering services, building channels - proceeds
+// without schedule points.
 func NewKernel() *Kernel {
-	return &Kernel{byGoid: map[uint64]*Actor{}, spawnQ: map[string][]*Actor{}}
+	return &Kernel{byGoid: map[uint64]*Actor{}, spawnQ: map[string][]*Actor{}, root: goid()}
 }
 
 func goid() uint64 {
@@ -121,6 +126,9 @@ func (k *Kernel) logf(f string, a ...any) {
 }
 
 func (k *Kernel) park(site string, try func() bool, unlock func()) {
+	if goid() == k.root {
+		return
+	}
 	a := k.self()
 	e := &entry{actor: a, site: site, wake: make(chan struct{}), try: try, unlock: unlock}
 	k.mu.Lock()
@@ -255,6 +263,9 @@ func Adopt(id string, rank int) {
 func BeforeLock(site string, try func() bool, unlock func()) {
 	k := Current
 	if k == nil {
+		return
+	}
+	if goid() == k.root {
 		return
 	}
 	k.park(site, nil, nil)
